@@ -346,10 +346,29 @@ def _enclosing_if(fn, node):
 
 
 # ---------------------------------------------------------------------------
-def _loop_binding(loop):
+def _loop_binding(loop, env=None):
     """How the atom loop pairs atoms and coordinate rows.
     -> dict(atom=<expr text of the atom>, row=<expr text of the row>, aligned=bool)"""
     it, tg = loop.iter, loop.target
+    if env is not None and isinstance(it, ast.Call) and call_name(it) == "zip" and isinstance(tg, ast.Tuple) and len(tg.elts) == len(it.args) == 2:
+        # zip(<something over self.atoms>, <something over self.coords>) with the two sources named first
+        srcs = [env.expand(x) for x in it.args]
+        txt = [norm(x) for x in srcs]
+        ia = [k for k, t in enumerate(txt) if "self.atoms" in t]
+        ic = [k for k, t in enumerate(txt) if "self.coords" in t or "self._coords" in t]
+        if len(ia) == 1 and len(ic) == 1 and ia != ic:
+            a_src, c_src = srcs[ia[0]], srcs[ic[0]]
+            out = dict(atom=norm(tg.elts[ia[0]]), row=norm(tg.elts[ic[0]]), aligned=True, idx=None, row_target=tg.elts[ic[0]])
+            if txt[ic[0]] not in ("self.coords", "self._coords"):
+                out["altered"] = txt[ic[0]]
+            if txt[ia[0]] != "self.atoms":
+                # a generator of symbols: (a.element.symbol for a in self.atoms)
+                if isinstance(a_src, (ast.GeneratorExp, ast.ListComp)) and len(a_src.generators) == 1 and norm(a_src.generators[0].iter) == "self.atoms" \
+                        and not a_src.generators[0].ifs and norm(a_src.elt) == f"{norm(a_src.generators[0].target)}.element.symbol":
+                    out["atom_is_symbol"] = True
+                else:
+                    raise AnalysisError(f"atom loop `for {norm(tg)} in {norm(it)}` - unknown idiom")
+            return out
     if isinstance(it, ast.Call) and call_name(it) == "range" and isinstance(tg, ast.Name):
         i = tg.id
         return dict(atom=f"self.atoms[{i}]", row=f"self.coords[{i}]", aligned=norm(it.args[-1]) in ("self.n_atoms", "len(self.atoms)"), idx=i)
@@ -381,7 +400,12 @@ def r2_records(chk):
     line_w = [w for w in writes if any(x is w for x in ast.walk(loops[0]))]
     head_w = [w for w in writes if w not in line_w]
     chk.require(len(line_w) == 1 and len(head_w) == 1, "dump_xyz: writes not separable into header / atom line")
-    bind = _loop_binding(loops[0])
+    from ..canon import Env
+
+    bind = _loop_binding(loops[0], Env(dx.node))
+    chk.decide(not bind.get("altered"), "C08.R2", f"{dx.key}:coordinates-written-unaltered", dx.where(loops[0]), "the rows that are formatted are the rows of self.coords",
+               f"the atom lines are formatted from `{bind.get('altered')}`, not from the coordinate array itself: what is written is not the stored value to the precision of the format "
+               "(digits beyond the rounding are invented, read-back differs)")
     # --- atom line columns
     cols = columns(template_parts(line_w[0].args[0]))
     unsep = [i for i, c in enumerate(cols) if not c[2]]
@@ -396,6 +420,10 @@ def r2_records(chk):
         for v in vals:
             if isinstance(v, tuple) and v[0] == "unpack" and norm(v[1]) == bind["row"]:
                 row_names[nm] = "xyz"[v[2]] if v[2] < 3 else "?"
+    rt = bind.get("row_target")
+    if isinstance(rt, ast.Tuple) and len(rt.elts) == 3 and all(isinstance(x, ast.Name) for x in rt.elts):
+        for k_, x_ in enumerate(rt.elts):  # `for s, (x, y, z) in zip(.., self.coords)`: the row is unpacked in the loop target
+            row_names[x_.id] = "xyz"[k_]
     col = []
     rep_seen = 0
     for kind, payload, _ in cols:
@@ -413,7 +441,11 @@ def r2_records(chk):
             continue
         pv = provenance(dx.node, e, dx.params(), asg)
         se = norm(e)
-        if any(t.endswith("symbol") for t in pv) or se.endswith(".symbol"):
+        if bind.get("atom_is_symbol") and se == bind["atom"]:
+            col.append("symbol")
+        elif isinstance(e, ast.Name) and e.id in row_names and rt is not None:
+            col.append(row_names[e.id])
+        elif any(t.endswith("symbol") for t in pv) or se.endswith(".symbol"):
             # which atom does the symbol belong to?
             src = se
             if isinstance(e, ast.Name):
